@@ -26,7 +26,7 @@ LEVEL_NOTE = ("Order is decided in the bounded, restated form 'observed slope ov
               "and end positions stay inside the clip box; the metric is the start cell's, as the implementation documents. RK2 = midpoint rule.")
 RULE = ("cases: onestep (field x scheme x metric, 200 particles, 6 steps), order (field x scheme ladder), helper (analytical.get_velocityN ladder), e2e (ROMS files, linear field, scheme, "
         "dx != dy). Non-trivial: the field has non-zero second derivatives or time dependence so that the three schemes differ; distinct by (kind, field, scheme, metric).")
-MANDATORY = ["grid_corner_off_diagonal", "e2e_subgrid_off_diagonal", "onestep_EF", "onestep_RK2", "onestep_RK4", "time_dependent_field", "anisotropic_metric", "piecewise_metric", "order_EF", "order_RK2", "order_RK4",
+MANDATORY = ["inactive_particles_among_the_active", "grid_corner_off_diagonal", "e2e_subgrid_off_diagonal", "onestep_EF", "onestep_RK2", "onestep_RK4", "time_dependent_field", "anisotropic_metric", "piecewise_metric", "order_EF", "order_RK2", "order_RK4",
              "helper_order_1", "helper_order_2", "helper_order_4", "e2e_runs", "velocity_requests_checked"]
 ASSUMPTIONS = ["per-step displacement below about one cell (Courant <= 0.9)", "diffusion off"]
 TIMEOUT = {"quick": 900, "thorough": 3000}
@@ -110,6 +110,13 @@ def _onestep(case, V, sit, cnt, keys):
     timer, state, grid, tracker = make_tracker(scheme, flow, dt, 8, gridkw, X0, Y0)
     vel = ref.flow_vel(flow)
     desc = dict(scheme=scheme, flow=flow, dt=dt, dx=dx, dy=dy, metric=case["metric"])
+    active = np.ones(npart, bool)
+    if case["idx"] % 3 == 1:
+        # some particles switched off by an IBM (alive, not moved) sit between the active ones in the state arrays:
+        # "every active particle" must still get the scheme's step
+        active = rng.random(npart) > 0.3
+        state["active"] = active
+        _bump(sit, "inactive_particles_among_the_active")
     nsteps = 6
     for _ in range(nsteps):
         timer.update()
@@ -135,10 +142,20 @@ def _onestep(case, V, sit, cnt, keys):
             if abs(c[2] - f) > 1e-12:
                 V.append(C.viol(f"{scheme}: stage evaluated at fractional step {c[2]}, scheme prescribes {f}", **desc))
                 return
-            d = np.max(np.hypot(c[3][ok] - sx[ok], c[4][ok] - sy[ok])) if ok.any() else 0.0
+            if len(c[3]) == npart:
+                sel = ok & active
+                d = np.max(np.hypot(c[3][sel] - sx[sel], c[4][sel] - sy[sel])) if sel.any() else 0.0
+            elif len(c[3]) == int(active.sum()):  # velocities requested for the active particles only
+                sel = ok[active]
+                d = np.max(np.hypot(c[3][sel] - sx[active][sel], c[4][sel] - sy[active][sel])) if sel.any() else 0.0
+            else:
+                d = 0.0  # another selection of particles: only the resulting positions are judged
             if d > 1e-12:
                 V.append(C.viol(f"{scheme}: velocity requested {d:.3g} cells away from the stage position of the scheme (fraction {f})", **desc))
                 return
+        X1 = np.where(active, X1, Xb)
+        Y1 = np.where(active, Y1, Yb)
+        ok = ok | ~active
         err = np.max(np.hypot(state.X[ok] - X1[ok], state.Y[ok] - Y1[ok])) if ok.any() else 0.0
         cnt["particle_steps_compared"] = cnt.get("particle_steps_compared", 0) + int(ok.sum())
         if err > 1e-12:
